@@ -35,6 +35,8 @@ def linear_shapes(tier, seed):
         shapes.append(mk(T, 2, [("odometry", (0, 1))], {0}, "pair"))
         shapes.append(mk(T, 2, [("odometry", (1, 0)), ("odometry", (0, 1))], {1}, "double-edge"))
         shapes.append(mk(T, 3, [("odometry", (0, 1)), ("odometry", (1, 2))], {0}, "path3"))
+        # parallel edges in OPPOSITE directions between two FREE vertices (a block is only exercised when both ends are free)
+        shapes.append(mk(T, 3, [("odometry", (0, 1)), ("odometry", (1, 0)), ("landmark", (1, 2)), ("landmark", (2, 1)), ("odometry", (2, 0))], {2}, "opposite-parallel-free"))
         shapes.append(mk(T, 3, [("odometry", (0, 1)), ("odometry", (1, 2)), ("odometry", (2, 0))], {1}, "cycle3"))
         shapes.append(mk(T, 3, [("odometry", (0, 1)), ("landmark", (1, 2)), ("landmark", (0, 2))], {0}, "landmarks"))
         shapes.append(mk(T, 4, [("odometry", (0, 1)), ("odometry", (0, 2)), ("odometry", (3, 0))], {0, 3}, "star4"))
